@@ -1088,8 +1088,7 @@ int32_t jls_core_fsr(struct jls_core_s * self, uint16_t signal_id, int64_t start
     int64_t chunk_sample_id;
     int64_t chunk_sample_count;
     uint8_t * u8;
-    uint8_t shift_bits = 0;
-    uint8_t shift_carry = 0;
+    uint64_t dst_bit = 0;
 
     while (data_length > 0) {
         ROE(jls_core_rd_fsr_data0(self, signal_id, start_sample_id));
@@ -1103,48 +1102,24 @@ int32_t jls_core_fsr(struct jls_core_s * self, uint16_t signal_id, int64_t start
             return JLS_ERROR_UNSPECIFIED;
         }
 
+        int64_t idx_start = 0;
         int64_t sz_samples = chunk_sample_count;
         if (start_sample_id > chunk_sample_id) {
             // should only happen on first chunk
-            int64_t idx_start = start_sample_id - chunk_sample_id;
+            idx_start = start_sample_id - chunk_sample_id;
             sz_samples = chunk_sample_count - idx_start;
-            u8 += ((idx_start * entry_size_bits) / 8);
-            switch (entry_size_bits) {
-                case 1: shift_bits = (uint8_t) (start_sample_id & 0x07); break;
-                case 4: shift_bits = (uint8_t) ((start_sample_id & 0x01) * 4); break;
-                default: break;
-            }
-            if (shift_bits) {
-                shift_carry = (*u8++) >> shift_bits;
-                uint8_t rem_bits = (uint8_t) ((start_sample_id + data_length - 1) & 0x07) + 1;
-                if ((1 == entry_size_bits) && ((8 - shift_bits + rem_bits) > 8)) {
-                    // write out carry on buffer wrap when carry + end bits exceed a byte
-                    if (data_length > sz_samples) {
-                        data_length += 8;
-                    }
-                } else if ((4 == entry_size_bits) && (sz_samples == 1)) {
-                    data_length -= sz_samples;
-                    start_sample_id += sz_samples;
-                    continue;
-                }
-            }
         }
-
         if (sz_samples > data_length) {
             sz_samples = data_length;
         }
-
-        size_t sz_bytes = (size_t) (sz_samples * entry_size_bits + 7) / 8;
-        if (shift_bits) {
-            for (size_t i = 0; i < sz_bytes; ++i) {
-                data_u8[i] = (u8[i] << (8 - shift_bits)) | shift_carry;
-                shift_carry = u8[i] >> shift_bits;
-            }
-            sz_bytes = (sz_samples * entry_size_bits) / 8;
-        } else {
-            memcpy(data_u8, u8, sz_bytes);
+        if (sz_samples <= 0) {
+            JLS_LOGE("fsr chunk does not contain sample_id %" PRIi64, start_sample_id);
+            return JLS_ERROR_NOT_FOUND;
         }
-        data_u8 += sz_bytes;
+
+        jls_bit_copy(data_u8, dst_bit, u8, ((uint64_t) idx_start) * entry_size_bits,
+                     ((uint64_t) sz_samples) * entry_size_bits);
+        dst_bit += ((uint64_t) sz_samples) * entry_size_bits;
         data_length -= sz_samples;
         start_sample_id += sz_samples;
     }
